@@ -43,6 +43,10 @@ pub struct SendSpec {
     /// None: send(); Some(d): send_in(d ns)
     pub delay: Option<u32>,
     pub body: u16,
+    /// start at the same instant as the previous send (only honoured if that one goes the other way: the two
+    /// directions of a hop have independent channels, so opposite traffic must not interfere)
+    #[serde(default)]
+    pub with_prev: bool,
 }
 
 #[derive(Clone, Debug, Serialize, Deserialize)]
@@ -64,20 +68,20 @@ pub struct Case {
 pub struct C08;
 
 struct Node {
-    /// (trigger id, gate, delay, body bytes)
-    sends: Vec<(u16, GateRef, Option<u32>, u16)>,
+    /// (trigger id, gate, delay, body bytes, time slot)
+    sends: Vec<(u16, GateRef, Option<u32>, u16, u16)>,
 }
 
 impl Module for Node {
     fn at_sim_start(&mut self, _: usize) {
-        for (id, _, _, _) in &self.sends {
-            schedule_in(Message::default().kind(1).id(*id), Duration::from_secs(100 * (*id as u64 + 1)));
+        for (id, _, _, _, slot) in &self.sends {
+            schedule_in(Message::default().kind(1).id(*id), Duration::from_secs(100 * (*slot as u64 + 1)));
         }
     }
     fn handle_message(&mut self, msg: Message) {
         if msg.header().kind == 1 {
             let id = msg.header().id;
-            let (_, gate, delay, body) = self.sends.iter().find(|s| s.0 == id).expect("trigger").clone();
+            let (_, gate, delay, body, _) = self.sends.iter().find(|s| s.0 == id).expect("trigger").clone();
             let out = Message::default().kind(2).id(id).with_content(vec![0u8; body as usize]);
             net::log("sent", id as i64, 0);
             match delay {
@@ -241,9 +245,16 @@ pub fn run_case(case: &Case) -> Result<(bool, Vec<&'static str>), Failure> {
     let a_mod = sim.get(&ObjectPath::from(paths[owners[0]].as_str())).unwrap();
     let b_mod = sim.get(&ObjectPath::from(paths[owners[k]].as_str())).unwrap();
     let (a_id, b_id) = (a_mod.id().0 as i64, b_mod.id().0 as i64);
+    // time slots: a send flagged `with_prev` shares the slot of its predecessor if that one goes the other way
+    let mut slots: Vec<u16> = Vec::new();
+    for (i, s) in case.sends.iter().enumerate() {
+        let share = i > 0 && s.with_prev && case.sends[i - 1].from_far_end != s.from_far_end && owners[0] != owners[k]
+            && !(i > 1 && slots[i - 1] == slots[i - 2]);
+        slots.push(if share { slots[i - 1] } else { i as u16 });
+    }
     for (i, s) in case.sends.iter().enumerate() {
         let (m, g) = if s.from_far_end { (&b_mod, gates[k].clone()) } else { (&a_mod, gates[0].clone()) };
-        m.as_mut::<Node>().sends.push((i as u16, g, s.delay, s.body % 2000));
+        m.as_mut::<Node>().sends.push((i as u16, g, s.delay, s.body % 2000, slots[i]));
     }
     drop(a_mod);
     drop(b_mod);
@@ -270,7 +281,7 @@ pub fn run_case(case: &Case) -> Result<(bool, Vec<&'static str>), Failure> {
 
     for (i, s) in case.sends.iter().enumerate() {
         let len = 64 + (s.body % 2000) as usize;
-        let t0 = 100_000_000_000u128 * (i as u128 + 1) + s.delay.unwrap_or(0) as u128;
+        let t0 = 100_000_000_000u128 * (slots[i] as u128 + 1) + s.delay.unwrap_or(0) as u128;
         let hops: Vec<usize> = if s.from_far_end { (0..k).rev().collect() } else { (0..k).collect() };
         let mut t = t0;
         let mut want_probes: Vec<(u128, i64)> = Vec::new();
@@ -357,6 +368,9 @@ pub fn run_case(case: &Case) -> Result<(bool, Vec<&'static str>), Failure> {
     if !case.repeats.is_empty() {
         labels.push("repeated-connect");
     }
+    if slots.windows(2).any(|w| w[0] == w[1]) {
+        labels.push("simultaneous-opposite-traffic");
+    }
     Ok((k >= 3 && !sorted_flag && !uniform && !case.sends.is_empty(), labels))
 }
 
@@ -367,7 +381,7 @@ impl Prop for C08 {
     fn rule() -> String {
         "proptest: chains of 1..8 (quick) / 1..16 (thorough) hops over 1..17 modules (gates may share modules, gates taken from clusters of size 1..3), \
          built by one connect call per hop in a generated permutation and orientation plus repeated calls in either orientation, channels (none / \
-         latency / bitrate+latency, never contended) on a generated subset of hops, sends from both endpoints with send() and send_in(), an attempted \
+         latency / bitrate+latency, never contended) on a generated subset of hops, sends from both endpoints with send() and send_in() (also simultaneously in opposite directions), an attempted \
          third connection on a transit gate under catch_unwind. Oracle: exactly one delivery per send at the owner of the far endpoint at send time + \
          sum of per-hop (len*8/bitrate + latency); header sender/receiver ids and last_gate; per-hop probes in chain order at the cumulative times; \
          gate kinds, path_iter from both ends (exact mirror), next_gate, path_end; third peer rejected with the documented panic and chain intact. \
@@ -396,8 +410,8 @@ impl Prop for C08 {
         ];
         let gate = (any::<u16>(), 0u8..3, 0u8..3).prop_map(|(owner, size, pos)| GateSpec { owner, size, pos });
         let rep = (any::<u16>(), (any::<u16>(), any::<bool>(), ch.clone()).prop_map(|(hop, flipped, ch)| ConnectCall { hop, flipped, ch }));
-        let send = (any::<bool>(), proptest::option::weighted(0.5, prop_oneof![Just(0u32), 1u32..1_000_000_000]), 0u16..2000)
-            .prop_map(|(from_far_end, delay, body)| SendSpec { from_far_end, delay, body });
+        let send = (any::<bool>(), proptest::option::weighted(0.5, prop_oneof![Just(0u32), 1u32..1_000_000_000]), 0u16..2000, any::<bool>())
+            .prop_map(|(from_far_end, delay, body, with_prev)| SendSpec { from_far_end, delay, body, with_prev });
         (2usize..=max_hops + 1)
             .prop_flat_map(move |ngates| {
                 (
